@@ -6,6 +6,7 @@
 import Peppi.Lemmas.NoPanic
 import Peppi.Lemmas.Fuel
 import Peppi.Lemmas.ArrowStream
+import Peppi.ReadProg
 set_option linter.unusedVariables false
 namespace Peppi.Props.C06
 
@@ -36,5 +37,16 @@ theorem parseEvent_consumes (ps : ParseState) (bs : Bytes) (r) (rest : Bytes) (h
 /- from `Peppi.Lemmas.ArrowStream` -/
 theorem readArrowFrames_noPanic {χ : Type} (items : List (SItem χ)) : ∀ s, readArrowFrames items ≠ .panic s :=
   _root_.Peppi.readArrowFrames_noPanic items
+
+/- from `Peppi.ReadProg` -/
+open Extracted Peppi.Prog in
+theorem run_shrinks {α} (p : Prog α) : ∀ bs a rest, p.run bs = .ok (a, rest) → rest.length ≤ bs.length :=
+  _root_.Peppi.Prog.run_shrinks p
+
+/- from `Peppi.ReadProg` -/
+open Extracted Peppi.Prog in
+theorem run_readProg (T : TextOracle) (opts : Opts) (fuel : Nat) (x : Bytes) (hf : 2 * x.length + 2 ≤ fuel) :
+    (readProg T opts fuel).run x = readP T opts x :=
+  _root_.Peppi.Prog.run_readProg T opts fuel x hf
 
 end Peppi.Props.C06
